@@ -5,7 +5,7 @@ import pyspec
 from . import C01, common
 
 ID = "C19"
-LEVEL = "other"
+LEVEL = "proof"
 RULE = ("random sequences of context operations (Add Sub Mul Quo FMA Neg Abs Set Err SetPrec SetMode New NewInt64 NewUint64) "
         "over 5 variables mixing valid and NaN-producing argument classes, with Err() at random points and a nil-operand probe "
         "(a run-time error that is not an ErrNaN); receivers with arbitrary previous precision/mode; "
